@@ -35,7 +35,8 @@ quick   : depths 0..2 x both systems x {npy/f64, fits/f32, fits/f64, png/rgb, pn
           serial, clobber; a covering subset with 2 and 4 workers; depth 3 twice; update mode
           (1-3 passes, random leaf subsets, masked samplers) at depths 1..2 in npy, fits, png;
           format overrides of equal parity; the LXY naming scheme; two slow-sampler scenarios
-          (1.3 s per sampler call, depth 2, 2 workers; clobber and update mode).
+          (1.3 s per sampler call, depth 2, 2 workers; clobber and update mode); clobbering an existing
+          pyramid with a partial-coverage map (3 scenarios, depth 2: whole tiles of the second map undefined).
 thorough: the full grid depths 0..3 x workers {1,2,4,7}, depth 4 in two configurations, 60 random
           update scenarios (depth <= 3), 24 random clobber scenarios with random coefficients.
 
@@ -205,6 +206,7 @@ def run_scenario(cfg):
     expected_files = {}
     optional_files = set()
     exp_cache = {}
+    masked_over = 0
     for (x, y) in all_leaves:
         u = None
         cur = None         # (data, defined, amb)
@@ -231,6 +233,8 @@ def run_scenario(cfg):
             expected_files[rel] = (x, y)     # at least one surely-defined pixel: the file must exist
         else:
             optional_files.add(rel)          # completely masked tiles are (by design) not stored
+            if cfg["mode"] == "clobber" and len(cfg["passes"]) > 1 and not cur[1].any():
+                masked_over += 1             # an earlier clobbering pass wrote this tile; whatever is there now must be all-undefined
         exp_cache[rel] = cur + ((x, y),)
 
     present = [f for f in list_tile_files(base, cfg["scheme"]) if not f.endswith(".lock")]
@@ -258,7 +262,7 @@ def run_scenario(cfg):
             if pr["obligation"] == "rt/sample_layer/pixel_values":
                 pr["hint"] = diagnose(cfg, kind, ext, obs, exp_cache, rel)
             problems.append(pr)
-    return {"problems": problems, "tiles": n_cmp, "files": len(present)}
+    return {"problems": problems, "tiles": n_cmp, "files": len(present), "masked_over": masked_over}
 
 
 def _tol(kind):
@@ -443,7 +447,30 @@ def build_scenarios(ctx):
                                  scheme=("LXY" if n % 5 == 2 else "L/Y/YX"), tag="u%d" % n))
         sc.append(update_cfg(rng, 0, "planetary", "fits", "f32", [1], 1, tag="u-depth0"))
         sc.extend(slow_sampler_cfgs(True))
+    sc.extend(reclobber_cfgs(rng, ctx.thorough))
     return sc
+
+
+def reclobber_cfgs(rng, thorough):
+    """Clobbering mode over an EXISTING pyramid with a partial-coverage map: pass 1 samples a map defined everywhere, pass 2
+    (again sample_layer: "data in any existing tiles will be ignored and destroyed") samples a map that is undefined on a
+    spherical cap larger than a hemisphere (u.dir > -0.3), so whole tiles of the second map are undefined.  Every pixel of
+    every tile must then be the second sampler's value at that pixel -- undefined where the second map is undefined; a tile
+    file that survives from pass 1 shows defined pixels there (obligation rt/sample_layer/mask).  A third scenario shifts the
+    cap between passes 2 and 3."""
+    out = []
+    combos = [("fits", "f32"), ("npy", "f64"), ("png", "rgba")] + ([("fits", "f64"), ("npy", "rgba"), ("npy", "f32")] if thorough else [])
+    axes = [[1.0, 0.0, 0.0], [0.0, 1.0, 0.0], [0.0, 0.0, 1.0], [-0.6, 0.0, -0.8], [0.0, -1.0, 0.0], [0.48, 0.6, 0.64]]
+    for n, (pf, kind) in enumerate(combos):
+        for depth in ((1, 2, 3) if thorough else (2,)):
+            c = clobber_cfg(depth, ("astronomical", "planetary")[n % 2], pf, kind, 1, coef=rand_coef(rng), tag="reclobber-%d" % n)
+            c["passes"].append({"leaves": "all", "coef": rand_coef(rng), "cap": {"dir": axes[(n + depth) % len(axes)], "thr": -0.3}})
+            c["parallel"] = [1, (1, 2, 4)[n % 3]]
+            if n == 1 or (thorough and depth == 2):
+                c["passes"].append({"leaves": "all", "coef": rand_coef(rng), "cap": {"dir": axes[(n + depth + 1) % len(axes)], "thr": -0.3}})
+                c["parallel"].append(1)
+            out.append(c)
+    return out
 
 
 SLOW_S = 1.3
@@ -546,6 +573,11 @@ def run(ctx):
     ctx.bound("update mode: 1..3 passes of sample_layer_filtered with random ancestor-closed leaf subsets and samplers "
               "masked on a random spherical cap; clobber mode: sample_layer (one scenario with two passes)")
     ctx.bound("format= override only between formats of equal vertical parity (png<->npy)")
+    n_re = len([c for c in scenarios if c["seed_tag"].startswith("reclobber")])
+    ctx.bound("clobbering an existing pyramid with a partial-coverage map: %d scenarios (%s, depth %s): sample_layer of a map defined "
+              "everywhere, then sample_layer of a map undefined on a cap larger than a hemisphere (whole tiles undefined); one "
+              "scenario per depth with a third pass and a shifted cap" % (n_re, "fits/f32, npy/f64, png/rgba" + (", fits/f64, npy/rgba, npy/f32" if ctx.thorough else ""),
+                                                                       "1..3" if ctx.thorough else "2"))
     n_slow = len([c for c in scenarios if any(ps.get("delay_s") for ps in c["passes"])])
     ctx.bound("slow sampler: %d scenarios in which every sampler call takes %.1f s (longer than the 1 s time-outs of the worker hand-off), "
               "depth 2 (16 tiles > workers + 2*workers queue slots) with 2 workers, sample_layer and sample_layer_filtered%s"
@@ -590,6 +622,7 @@ def run(ctx):
             for idx, r in pairs:
                 results[idx] = r
     tiles = 0
+    masked_over = 0
     for idx, cfg in enumerate(scenarios):
         status, res, secs, t = results[idx]
         key = (cfg["depth"], cfg["coordsys"], cfg["pio_format"], cfg["format"], cfg["scheme"], cfg["kind"], cfg["mode"],
@@ -597,6 +630,7 @@ def run(ctx):
         ctx.case(key)
         if status == "ok":
             tiles += res.get("tiles", 0)
+            masked_over += res.get("masked_over", 0)
         if idx % 17 == 0:
             ctx.sample({"scenario": {k: cfg[k] for k in ("depth", "coordsys", "pio_format", "kind", "mode", "parallel")},
                         "status": status, "tiles_compared": (res or {}).get("tiles") if status == "ok" else None,
@@ -607,6 +641,7 @@ def run(ctx):
             if n < CAP:
                 ctx.violation(obl, witness_of(cfg, extra), msg)
     ctx.monitor("tiles_compared_with_oracle", tiles)
+    ctx.monitor("tiles_of_an_earlier_clobbering_pass_wholly_undefined_in_the_last_one", masked_over)
     ctx.note("scenarios run: %d in %.1f s; tiles compared pixel-by-pixel: %d; problems per obligation: %s"
              % (len(scenarios), time.time() - t0, tiles, per_obl))
 
